@@ -103,6 +103,16 @@ U("setnstr_byname", entry="h_setnstr_byname", func="cfg_setnstr", harness="harne
 U("setnfloat_byname", entry="h_setnfloat_byname", func="cfg_setnfloat", harness="harness/store2.c", defs={"quick": ["-DNV=2"]}, cbmc=unw(6) + OOM,
   label="proof (loop-free for one value)", props=["C14", "C10", "C02"], cost=10, **CFG)
 
+# ------------------------------------------------------------------ cfg_setopt arms
+per_count("setopt_pcb_int", counts_quick=(0, 1, 2), counts_thorough=(0, 1, 2), entry="h_setopt_pcb_int", func="cfg_setopt", harness="harness/setopt_arms.c",
+          cbmc=unw(6) + OOM, label="INT arm with parse callback; " + FLAGTXT, props=["C14", "C10", "C01", "C09", "C18", "C02"], cost=20, **CF)
+per_count("setopt_ptr", counts_quick=(0, 1), counts_thorough=(0, 1), entry="h_setopt_ptr", func="cfg_setopt", harness="harness/setopt_arms.c",
+          cbmc=unw(6) + OOM, label="PTR arm, scalar; parse / release callbacks present or absent", props=["C07", "C14", "C10", "C09", "C02"], cost=10, **CF)
+per_count("setopt_str", counts_quick=(0, 1, 2), counts_thorough=(0, 1, 2), entry="h_setopt_str", func="cfg_setopt", harness="harness/setopt_arms.c",
+          cbmc=unw(6) + OOM, label="STR arm with / without parse callback; strings <= 2 bytes; " + FLAGTXT, props=["C01", "C14", "C07", "C16", "C09", "C18", "C02"], cost=40, **CF)
+U("setopt_args", entry="h_setopt_args", func="cfg_setopt", harness="harness/setopt_arms.c", defs={"quick": ["-DNV=2"]}, cbmc=unw(6) + OOM,
+  label="proof (loop-free paths: argument validation)", props=["C09", "C10", "C02"], cost=5, **CF)
+
 # ------------------------------------------------------------------ per-property text for MANIFEST / evidence
 HOOK_COMMITS = []
 NOT_APPLICABLE = {}
